@@ -27,6 +27,7 @@ import (
 	"encoding/json"
 	"errors"
 	"io"
+	"math/big"
 	"net/http"
 	"net/http/httptest"
 	"net/url"
@@ -103,9 +104,9 @@ func (c c09client) Cluster() cluster.Client    { return c09cluster{s: c.s} }
 
 type c09log struct{}
 
-func (c09log) Debug(string, ...interface{})   {}
-func (c09log) Info(string, ...interface{})    {}
-func (c09log) Error(string, ...interface{})   {}
+func (c09log) Debug(string, ...interface{})     {}
+func (c09log) Info(string, ...interface{})      {}
+func (c09log) Error(string, ...interface{})     {}
 func (l c09log) With(...interface{}) log.Logger { return l }
 
 // ---- the recording model of gorilla/mux (engine only) ----
@@ -255,6 +256,46 @@ func c09seqValue(name string) string {
 	return "18446744073709551616" // 2^64: out of range for every sequence number
 }
 
+func c09nativeRequest(url, tpl, query string) {
+	if query != "" {
+		url += "?" + query
+	}
+	if strings.HasSuffix(tpl, "/kubeevents") || strings.HasSuffix(tpl, "/logs") || strings.HasSuffix(tpl, "/shell") {
+		if strings.HasSuffix(tpl, "/shell") {
+			sep := "?"
+			if query != "" {
+				sep = "&"
+			}
+			url += sep + "cmd0=ls&tty=0&stdin=0&service=web&podIndex=0"
+		}
+		ws, resp, err := websocket.DefaultDialer.Dial("ws"+strings.TrimPrefix(url, "http"), nil)
+		if err == nil {
+			for {
+				if _, _, err := ws.ReadMessage(); err != nil {
+					break
+				}
+			}
+			_ = ws.Close()
+		}
+		if resp != nil && resp.Body != nil {
+			_ = resp.Body.Close()
+		}
+		return
+	}
+	method := "GET"
+	if strings.HasSuffix(tpl, "/manifest") {
+		method = "PUT"
+	}
+	req, err := http.NewRequest(method, url, bytes.NewReader([]byte("[]")))
+	if err != nil {
+		panic(err)
+	}
+	resp, err := http.DefaultClient.Do(req)
+	if err == nil {
+		_ = resp.Body.Close()
+	}
+}
+
 func c09run(nth int) {
 	A, P, B := verif_Addr(0), verif_Addr(1), verif_Addr(2)
 	paddr, err := sdk.AccAddressFromBech32(P)
@@ -308,7 +349,26 @@ func c09run(nth int) {
 	}
 	var tlsState *tls.ConnectionState
 	if authenticated {
-		tlsState = &tls.ConnectionState{PeerCertificates: []*x509.Certificate{{Subject: pkix.Name{CommonName: A}}}}
+		tlsState = &tls.ConnectionState{PeerCertificates: []*x509.Certificate{{Subject: pkix.Name{CommonName: A}, SerialNumber: big.NewInt(77)}}}
+	}
+	// history: another tenant, whose certificate may carry the same serial number (serials are
+	// unique per owner only), was served by the same router before
+	var earlier *tls.ConnectionState
+	if verif_Choice("earlier-request-by-another-tenant", 2) == 1 {
+		sn := int64(77)
+		if verif_Choice("its-serial-differs", 2) == 1 {
+			sn = 78
+		}
+		earlier = &tls.ConnectionState{PeerCertificates: []*x509.Certificate{{Subject: pkix.Name{CommonName: B}, SerialNumber: big.NewInt(sn)}}}
+	}
+	between := func() {
+		for _, id := range seen.leases {
+			verif_Assert(id.Owner == B, "C09 a lease-scoped request is executed only against leases of the authenticated account, whatever the URL contains")
+		}
+		for _, id := range seen.deployments {
+			verif_Assert(id.Owner == B, "C09 a deployment-scoped request is executed only against deployments of the authenticated account, whatever the URL contains")
+		}
+		seen.leases, seen.deployments = nil, nil
 	}
 
 	if verif_Symbolic() {
@@ -334,55 +394,33 @@ func c09run(nth int) {
 		}
 		c09curVars = vars
 		// the URL path is the template itself: path variables reach the code only through mux.Vars
+		if earlier != nil {
+			req0 := &http.Request{Method: "GET", TLS: earlier, Body: c09body{}, URL: &url.URL{Path: tpl, RawQuery: ""}}
+			func() {
+				defer func() { _ = recover() }()
+				h.ServeHTTP(c09writer{}, req0)
+			}()
+			between()
+		}
 		req := &http.Request{Method: "GET", TLS: tlsState, Body: c09body{}, URL: &url.URL{Path: tpl, RawQuery: query}}
 		func() {
 			defer func() { _ = recover() }() // net/http recovers a panicking handler
 			h.ServeHTTP(c09writer{}, req)
 		}()
 	} else {
+		curTLS := tlsState
 		srv := httptest.NewServer(http.HandlerFunc(func(w http.ResponseWriter, r *http.Request) {
-			r.TLS = tlsState // part (i) decides which certificate gets this far
+			r.TLS = curTLS // part (i) decides which certificate gets this far
 			router.ServeHTTP(w, r)
 		}))
 		defer srv.Close()
-		url := srv.URL + path
-		if query != "" {
-			url += "?" + query
+		if earlier != nil {
+			curTLS = earlier
+			c09nativeRequest(srv.URL+path, tpl, "")
+			between()
+			curTLS = tlsState
 		}
-		if strings.HasSuffix(tpl, "/kubeevents") || strings.HasSuffix(tpl, "/logs") || strings.HasSuffix(tpl, "/shell") {
-			if strings.HasSuffix(tpl, "/shell") {
-				sep := "?"
-				if query != "" {
-					sep = "&"
-				}
-				url += sep + "cmd0=ls&tty=0&stdin=0&service=web&podIndex=0"
-			}
-			ws, resp, err := websocket.DefaultDialer.Dial("ws"+strings.TrimPrefix(url, "http"), nil)
-			if err == nil {
-				for {
-					if _, _, err := ws.ReadMessage(); err != nil {
-						break
-					}
-				}
-				_ = ws.Close()
-			}
-			if resp != nil && resp.Body != nil {
-				_ = resp.Body.Close()
-			}
-		} else {
-			method := "GET"
-			if strings.HasSuffix(tpl, "/manifest") {
-				method = "PUT"
-			}
-			req, err := http.NewRequest(method, url, bytes.NewReader([]byte("[]")))
-			if err != nil {
-				panic(err)
-			}
-			resp, err := http.DefaultClient.Do(req)
-			if err == nil {
-				_ = resp.Body.Close()
-			}
-		}
+		c09nativeRequest(srv.URL+path, tpl, query)
 	}
 
 	if len(seen.leases)+len(seen.deployments) > 0 {
